@@ -30,12 +30,12 @@ def snap(s, x):
             "sc": [float(getattr(s, a)) for a in SC], "cost": [float(c) for c in s.cost]}
 
 
-def drive(A, y, x0, damp, K):
+def drive(A, y, x0, damp, K, calc_var=True):
     from pylops import MatrixMult
     from pylops.optimization.cls_basic import LSQR
     Op = MatrixMult(A.copy(), dtype=A.dtype)
     s = LSQR(Op)
-    x = s.setup(y.copy(), x0=None if x0 is None else x0.copy(), damp=damp, atol=0, btol=0, conlim=0, niter=K + 5)
+    x = s.setup(y.copy(), x0=None if x0 is None else x0.copy(), damp=damp, atol=0, btol=0, conlim=0, niter=K + 5, calc_var=calc_var)
     out = {"sb": float(s.beta), "sa": float(s.alfa), "setup": snap(s, x), "steps": []}
     for _ in range(K):
         x = s.step(x)
@@ -118,7 +118,7 @@ def evaluate(tag, cases):
     outs = {}
     for c in cases:
         try:
-            outs[c["id"]] = drive(c["A"], c["y"], c["x0"], c["damp"], c["K"])
+            outs[c["id"]] = drive(c["A"], c["y"], c["x0"], c["damp"], c["K"], c["id"] % 2 == 0)
         except Exception as e:
             outs[c["id"]] = {"error": "%s: %s" % (type(e).__name__, e)}
     d = common.workdir(tag)
